@@ -1352,3 +1352,22 @@ package websocket
 //@ assert at call:Write#1[C19.copywrite]: owner(arg0) == ref(pc) && same(arg1, p)
 //@ ghost after call:Write#1: pc.g_writes := pc.g_writes + 1
 //@ ensures[C19.copywrite] pc.g_writes == old(pc.g_writes) + 1 && n == len(p) && err == nil
+
+// ---------------------------------------------------------------------------
+// Thin public wrappers
+
+//@ func IsWebSocketUpgrade
+//@ tags C12
+//@ bind a after call:tokenListContainsValue#1
+//@ bind b after call:tokenListContainsValue#2
+//@ assert at call:tokenListContainsValue#1[C12.isupgrade]: arg0 == r.Header && streq(arg1, "Connection") && streq(arg2, "upgrade")
+//@ assert at call:tokenListContainsValue#2[C12.isupgrade]: arg0 == r.Header && streq(arg1, "Upgrade") && streq(arg2, "websocket") && a
+//@ assert at return#$[C12.isupgrade]: imp(result, a && b) && imp(!a, !result)
+
+//@ func (*Dialer).Dial
+//@ tags C14
+//@ results conn resp err
+//@ requires imp(d != nil, d.ReadBufferSize <= 1099511627776 && d.WriteBufferSize <= 1099511627776)
+//@ bind c0,r0,e0 after call:DialContext#1
+//@ assert at call:DialContext#1[C14.dial]: arg0 == d && same(arg2, urlStr) && arg3 == requestHeader
+//@ assert at return#$[C14.dial]: conn == c0 && resp == r0 && err == e0
